@@ -13,8 +13,9 @@
    prefix); and C01_module_fun_correct_partial for modules `definitions; main` whose functions are called in
    expression position, call earlier functions (captured) and themselves (`self`, recursion); and
    C01_module_top_correct_partial with the definitions at any top-level position of the module.
+   Calls may be nested anywhere in expressions and conditions (arguments containing calls, recursion in operand position).
    NOT yet proved: function literals inside blocks / functions, closures over data variables,
-   calls nested inside larger expressions, first-class function values.
+   first-class function values, calls in from-loop bounds.
    Those are covered by the T1/T2/T3 correspondences on every run.
 
    What else is proved and pinned here:
@@ -111,6 +112,8 @@ Theorem C01_module_top_correct_partial : forall (path : str) (p : source),
 Proof. exact module_top_correct. Qed.
 Print Assumptions C01_module_top_correct_partial.
 Check tcall_ok. Check def_rel. Check C01_nv_stage5_interleaved.
+(* calls nested anywhere in expressions and conditions (rhs_run: expression simulation with calls) *)
+Check rhs_run. Check C01_nv_stage5b.
 (* the same theorem behind a DECIDABLE test: the check evaluates `in_fragment` (extracted) on every program it
    generates and counts the programs for which this theorem speaks about the code the real compiler emitted (T1 equal) *)
 Check fragment_correct.
@@ -124,7 +127,7 @@ Proof. exact fragment_correct. Qed.
 Print Assumptions C01_fragment_correct_partial.
 Check in_fragment_sound.
 Example C01_nv_in_fragment : in_fragment nvp nv_s6 = true /\ in_fragment nvp nv_s4 = true /\ in_fragment nvp nv_s1f = true /\
-  in_fragment nvp nv_s7 = true /\ in_fragment nvp nv_s8 = true.
+  in_fragment nvp nv_s7 = true /\ in_fragment nvp nv_s8 = true /\ in_fragment nvp nv_s9 = true.
 Proof. vm_compute. repeat split. Qed.
 (* ... and it rejects what is outside: a closure over a data variable *)
 Example C01_nv_not_in_fragment :
